@@ -178,7 +178,15 @@ class DiskModel:
 
 
 # ------------------------------------------------------------------ generation
+REAL_KEYS = ["str", "int", "tuple", "K", "tupleK", "hashable-set", "hashable-dict", "frozenset"]
+
+
 def gen_case(tape, tier):
+    if tape.coin(0.001 if tier == "quick" else 0.0004, "real-second-interpreter"):
+        keys = [k for k in REAL_KEYS if tape.coin(0.6, "real-key")] or ["K"]
+        return {"part": "R", "config": {"cls": "disk", "cloudpickle": bool(tape.coin(0.6, "cp")), "with_lru": bool(tape.coin(0.4, "with-lru")),
+                                        "hashseeds": [str(tape.choose(50, "hs-a")), str(50 + tape.choose(50, "hs-b"))]},
+                "keys": keys}
     part = "A" if tape.coin(0.6, "part") else "B"
     if part == "A":
         cls = tape.pick(["lru", "lru", "hybrid", "hybrid", "simple", "disk", "disk"], "cls")
@@ -194,15 +202,21 @@ def gen_case(tape, tier):
                                                                       [0.2, 0.9], [2.0, 0.5]], "hybrid-weights")
         ops = []
         nv = 0
-        for _ in range(2 + tape.choose(11, "nops")):
+        # policy stress: long put/get histories without clear and with spread-out durations, so that several evictions
+        # happen in one history and the access-count and duration terms of the hybrid score pull in different directions
+        stress = cls in ("hybrid", "lru") and bool(tape.coin(0.5, "policy-stress"))
+        for _ in range(8 + tape.choose(9, "nops") if stress else 2 + tape.choose(11, "nops")):
             choices = ["put", "put", "put", "get", "get", "in", "len", "clear"]
+            if stress:
+                choices = ["put", "put", "put", "get", "get", "get", "in"]
             if cls == "disk":
                 choices += ["reopen"]
             k = tape.pick(choices, "op")
             if k == "put":
                 nv += 1
-                ops.append({"op": "put", "key": tape.pick(KEYS, "key"), "value": None if tape.coin(0.15, "none-value") else f"v{nv}",
-                            "duration": tape.pick([0, 0, 1, 1, 2, 5], "duration"),
+                ops.append({"op": "put", "key": tape.pick(KEYS, "key"),
+                            "value": None if tape.coin(0.15, "none-value") else ("<unstorable>" if tape.coin(0.06, "unstorable") else f"v{nv}"),
+                            "duration": tape.pick([1, 2, 3, 5, 8] if stress else [0, 0, 1, 1, 2, 5], "duration"),
                             "ctime_step": tape.pick([0, 1, 1, 2, -1], "ctime-step")})
             elif k == "get":
                 ops.append({"op": k, "key": tape.pick(KEYS, "key"), "default": bool(tape.coin(0.4, "with-default"))})
@@ -244,6 +258,13 @@ def gen_case(tape, tier):
 
 
 def simplify(case):
+    if case["part"] == "R":
+        for i in range(len(case["keys"])):
+            if len(case["keys"]) > 1:
+                c = copy.deepcopy(case)
+                del c["keys"][i]
+                yield c
+        return
     if case["part"] == "A":
         for i in range(len(case["ops"])):
             c = copy.deepcopy(case)
@@ -413,6 +434,39 @@ def run_A(case, tape):
 
 def _put(c, m, op, cfg, sim, now, before, V, probes):
     k, v = op["key"], op["value"]
+    if v == "<unstorable>":
+        # a value that cannot be pickled: a shared cache (and a disk cache) cannot store it and may raise, but must then
+        # be left exactly as it was; a process-local cache just keeps the object
+        from sim.userfuncs import Uncopyable
+
+        v = Uncopyable(f"{k}-obj")
+        must_pickle = cfg["cls"] == "disk" or (cfg.get("shared") and cfg["cls"] in ("lru", "hybrid"))
+        if must_pickle:
+            try:
+                if cfg["cls"] == "hybrid":
+                    c.put(k, v, float(op["duration"]))
+                else:
+                    c.put(k, v)
+            except Exception:  # noqa: BLE001
+                probes["unstorable_put_refused"] = probes.get("unstorable_put_refused", 0) + 1
+                if cfg["cls"] in ("lru", "hybrid"):
+                    # making room first and then failing to insert is within the property (an eviction yields a miss,
+                    # never a wrong value) as long as it is the designated victim; anything else must be unchanged
+                    gone = [x for x in KEYS if before[x] and x not in c]
+                    victims = m.victims_for_put(k)
+                    if gone:
+                        if victims == [None] or len(gone) > 1 or gone[0] not in victims:
+                            V("policy", "refused-put-evicted-wrongly", {"op": op, "gone": gone, "designated": victims})
+                            return
+                        if cfg["cls"] == "hybrid":
+                            for d in (m.vals, m.counts, m.durs):
+                                d.pop(gone[0], None)
+                        else:
+                            m.items = [x for x in m.items if x[0] != gone[0]]
+                return  # otherwise the model is unchanged: the generic checks after the op compare the states
+            V("model", "unstorable-value-accepted", {"op": op})
+            return
+        op = dict(op, value=v)
     if cfg["cls"] == "disk":
         now[0] += op.get("ctime_step", 1)
         ct = now[0]
@@ -685,8 +739,62 @@ def linearizable(hist, max_size):
 
 
 # ------------------------------------------------------------------ entry
+def run_real(case):
+    """DiskCache directory written by one real interpreter and reopened by another (other hash seed)."""
+    import json
+    import subprocess
+    import sys
+
+    cfg = case["config"]
+    out = {"violations": [], "probes": {"real_second_interpreter": 1, "part:R": 1, "cls:disk": 1}, "nontrivial": [],
+           "evaluations": 1, "yields": 0, "sim_time": 0.0, "exec_tape": [], "digest": None, "sample": case}
+    child = os.path.join(os.path.dirname(os.path.abspath(__file__)), "c14_real_child.py")
+    spec = {"use_cloudpickle": cfg["cloudpickle"], "with_lru": cfg["with_lru"], "keys": case["keys"], "max_size": None}
+    with C.Scratch() as root:
+        spath, folder = os.path.join(root, "spec.json"), os.path.join(root, "cache")
+        with open(spath, "w") as f:
+            json.dump(spec, f)
+        res = []
+        for role, hs in zip(("put", "check"), cfg["hashseeds"]):
+            env = dict(os.environ, PYTHONHASHSEED=hs, PYTHONDONTWRITEBYTECODE="1")
+            r = subprocess.run([sys.executable, child, role, folder, spath], env=env, capture_output=True, text=True, timeout=300)
+            res.append(r)
+            if r.returncode != 0:
+                break
+    last = res[-1]
+    line = (last.stdout.strip().splitlines() or ["{}"])[-1]
+    out["digest"] = C.digest_of([[r.returncode for r in res], line])
+    out["nontrivial"] = [C.digest_of([case["keys"], cfg["cloudpickle"], cfg["with_lru"]])]
+    if last.returncode == 0:
+        return out
+    sig = {"cls": "disk", "part": "R"}
+    if len(res) == 1 or last.returncode == 3:
+        kind = f"real-{'put' if len(res) == 1 else 'reopen'}-raised"
+        detail = {"stdout": last.stdout[-600:], "stderr": last.stderr[-300:]}
+    else:
+        try:
+            d = json.loads(line)
+        except ValueError:
+            d = {"stdout": last.stdout[-400:]}
+        detail = d
+        bad = set(d.get("missing", [])) | {x[0] for x in d.get("wrong", [])}
+        if d.get("wrong"):
+            kind = "wrong-value-after-real-reopen"
+        elif bad:
+            kind = "key-missing-after-real-reopen"
+        else:
+            kind = "entry-count-differs-after-real-reopen"
+        # the extra entries of a re-put are the other face of a key that was not found
+        sig["only_raw_frozenset_key_affected"] = bool(bad) and bad <= {"frozenset"} and \
+            d.get("len_after", 0) - len(case["keys"]) <= len(bad)
+    out["violations"].append({"property": PID, "oracle": "real-second-interpreter", "kind": kind, "detail": detail, "signature": sig})
+    return out
+
+
 def run_case(case, exec_seed=None, exec_tape=None):
     C.begin_case()
+    if case["part"] == "R":
+        return run_real(case)
     tape = Tape(exec_seed) if exec_tape is None else Tape(recorded=exec_tape)
     if case["part"] == "A":
         viol, probes, sim = run_A(case, tape)
